@@ -58,40 +58,71 @@ func hashInputLayout(absolutePackagePath string, inputs []string) (string, error
 }
 
 // hashTargetDefinition computes the configured hash of a single file.
+// Every component is written together with its length (and every list element separately),
+// so that two different definitions can never produce the same byte stream
+// (e.g. name "ab" + command "c" vs. name "a" + command "bc", or a fingerprint entry
+// {"a": "b=c"} vs. {"a=b": "c"}).
 func hashTargetDefinition(target model.Target, dependencyHashes []string) (string, error) {
 	hasher := GetHasher()
 
-	_, err := hasher.WriteString(target.Label.String())
-	_, err = hasher.WriteString(target.Command)
-	_, err = hasher.WriteString(sorted(target.Inputs))
-	_, err = hasher.WriteString(sorted(target.OutputDefinitions()))
-	_, err = hasher.WriteString(sorted(dependencyHashes))
-	_, err = hasher.WriteString(sortedKeyValue(target.Fingerprint))
-	if !target.IsMultiplatformCache() {
-		_, err = hasher.WriteString(config.Global.GetPlatform())
+	err := writeFields(hasher, target.Label.String(), target.Command)
+	if err == nil {
+		err = writeList(hasher, sortedCopy(target.Inputs))
 	}
-
+	if err == nil {
+		err = writeList(hasher, sortedCopy(target.OutputDefinitions()))
+	}
+	if err == nil {
+		// a bin_output is not the same declaration as a regular output with the same path
+		err = writeFields(hasher, target.BinOutput.String())
+	}
+	if err == nil {
+		err = writeList(hasher, sortedCopy(dependencyHashes))
+	}
+	if err == nil {
+		err = writeList(hasher, sortedKeyValue(target.Fingerprint))
+	}
+	if err == nil && !target.IsMultiplatformCache() {
+		err = writeFields(hasher, config.Global.GetPlatform())
+	}
 	if err != nil {
 		return "", err
 	}
+
 	// Return the hash as a hexadecimal string.
 	return hasher.SumString(), nil
 }
 
-func sorted(s []string) string {
-	slices.Sort(s)
-	return strings.Join(s, ",")
+// writeFields writes each string prefixed with its length
+func writeFields(hasher Hasher, fields ...string) error {
+	for _, field := range fields {
+		if _, err := hasher.WriteString(fmt.Sprintf("%d:%s", len(field), field)); err != nil {
+			return err
+		}
+	}
+	return nil
 }
 
-func sortedKeyValue(m map[string]string) string {
-	if len(m) == 0 {
-		return ""
+// writeList writes the number of elements followed by each length-prefixed element
+func writeList(hasher Hasher, list []string) error {
+	if _, err := hasher.WriteString(fmt.Sprintf("[%d]", len(list))); err != nil {
+		return err
 	}
+	return writeFields(hasher, list...)
+}
 
+func sortedCopy(s []string) []string {
+	sortedStrings := slices.Clone(s)
+	slices.Sort(sortedStrings)
+	return sortedStrings
+}
+
+// sortedKeyValue returns the length-prefixed "key" "value" encodings of the map entries in sorted order
+func sortedKeyValue(m map[string]string) []string {
 	entries := make([]string, 0, len(m))
 	for k, v := range m {
-		entries = append(entries, fmt.Sprintf("%s=%s", k, v))
+		entries = append(entries, fmt.Sprintf("%d:%s=%d:%s", len(k), k, len(v), v))
 	}
-
-	return sorted(entries)
+	slices.Sort(entries)
+	return entries
 }
